@@ -10,6 +10,11 @@ use std::rc::Rc;
 
 // ========================================================================= //
 
+/// The maximum number of rows in a table (see `Table::read_rows`).
+const MAX_NUM_TABLE_ROWS: usize = 65536;
+
+// ========================================================================= //
+
 /// A database query to delete existing rows.
 pub struct Delete {
     table_name: String,
@@ -221,6 +226,15 @@ impl Insert {
                 );
             }
             new_keys_set.insert(keys);
+        }
+        // The number of rows in a table cannot exceed 65536 (a larger table
+        // could not be read back).
+        if rows_map.len() + new_rows.len() > MAX_NUM_TABLE_ROWS {
+            invalid_input!(
+                "Table {:?} cannot have more than {} rows",
+                self.table_name,
+                MAX_NUM_TABLE_ROWS
+            );
         }
         // Insert the new rows into the table.
         for values in new_rows.into_iter() {
